@@ -141,7 +141,7 @@ def spelling(a, kw, variant):
     raise common.MachineryError('unknown spelling %r' % sp)
 
 
-SPELL_FULL = ['args', 'list', 'str', 'index', 'acct-list', 'acct-list', 'acct-str', 'coin-list', 'full-list', 'full-str']
+SPELL_FULL = ['args', 'list', 'str', 'index', 'acct-list', 'acct-list', 'acct-list', 'acct-str', 'coin-list', 'full-list', 'full-str']
 ACCT_IN_PATH = ('acct-list', 'acct-str', 'coin-list', 'full-list', 'full-str', 'offset-path')
 SPELL_REL = ['args', 'list', 'str', 'index']          # watch-only and multisig wallets: below the account key
 
@@ -297,6 +297,10 @@ class Driver:
             # form (for the specification): whether the change chain is given in the path or as an argument
             if net != cfg['net'] and sp in ACCT_IN_PATH:
                 sp = 'list' if op == 'key_for_path' else 'offset-'      # other networks: the account is always given by number
+            if sp in ACCT_IN_PATH and acct == self.default_acct and rng.random() < 0.6:
+                # a path that names the account is worth the trouble for an account other than the default one
+                others = sorted({a_[2] for a_ in accts if a_[0] == net and a_[1] == wt and a_[2] != acct})
+                acct = rng.choice(others + [1, 2, 3]) if acct == 0 else rng.choice(others + [0])
             return {'op': op, 'net': net, 'wt': wt, 'acct': acct, 'ch': ch, 'n': n, 'idx': idx, 'spell': sp,
                     'form': 'args' if sp in ('args', 'index') or op != 'key_for_path' else 'path',
                     'acctin': 'path' if sp in ACCT_IN_PATH else 'arg'}
